@@ -163,7 +163,7 @@ pub fn run(ctx: &Ctx) {
     ctx.assume("the harness owns the interleaving only at the feature-guarded sites (verif-hooks); query evaluation itself runs on the engine's worker threads, uncontrolled");
     ctx.assume("a multi-tuple insert/delete is one atomic operation of the model and errors are compared by class; query answers are compared as sets");
     ctx.set_shrink_iters(100);
-    ctx.run_part("schedules_readers_writers", ctx.cases(400, 8000), || tape_strategy(TAPE_LEN).prop_map(|t| decode(&t)), |c, o| check(ctx, c, o));
+    ctx.run_part("schedules_readers_writers", ctx.cases(2000, 30_000), || tape_strategy(TAPE_LEN).prop_map(|t| decode(&t)), |c, o| check(ctx, c, o));
 }
 
 pub fn replay(ctx: &Ctx, part: &str, case: &J) -> Option<Result<CheckResult, String>> {
